@@ -531,14 +531,16 @@ func (w *DispatchWorld) onAttempt(a queue.DeliveryAttempt, err error) {
 				if loc2 != nil {
 					abs := resolveRef(last.nr.URL, last.nr.Action.Location)
 					host := strings.TrimSuffix(strings.ToLower(abs.Hostname()), ".")
-					if ok, _ := eg.allowed(abs, d.lookups[host]); !ok {
-						final = "denied"
-						w.Res.probe("egress.denied.redirect_hop")
-					} else if d.failed[host] {
-						// the name of the next hop does not resolve: an ordinary
-						// retryable error (as for the first hop), not the 3xx
+					if d.failed[host] {
+						// the policy check looked the next hop's name up (an address or
+						// CIDR rule has to be held against its addresses) and the name
+						// does not resolve: an ordinary retryable error, as for the first
+						// hop - not a denial, and not the 3xx
 						final = "error"
 						w.Res.probe("egress.redirect_hop.dnsfail")
+					} else if ok, _ := eg.allowed(abs, d.lookups[host]); !ok {
+						final = "denied"
+						w.Res.probe("egress.denied.redirect_hop")
 					}
 				}
 			}
